@@ -28,13 +28,13 @@ def scan_catalogue():
         with open(os.path.join(OVERLAY, rel)) as fh:
             lines = fh.read().splitlines()
         pending = None
-        inline_mod = []     # `mod x {` at column 0 ... `}` at column 0
+        inline_mod = []     # stack of (name, indent): `mod x {` ... `}` at the same indentation
         for ln, line in enumerate(lines, 1):
-            mm = re.match(r"^(?:pub(?:\([a-z]+\))?\s+)?mod (\w+) \{\s*$", line)
+            mm = re.match(r"^(\s*)(?:pub(?:\([a-z]+\))?\s+)?mod (\w+) \{\s*$", line)
             if mm:
-                inline_mod.append(mm.group(1))
+                inline_mod.append((mm.group(2), mm.group(1)))
                 continue
-            if line.rstrip() == "}" and inline_mod:
+            if inline_mod and line.rstrip() == inline_mod[-1][1] + "}":
                 inline_mod.pop()
                 continue
             m = OB_RE.match(line)
@@ -48,7 +48,7 @@ def scan_catalogue():
                 f = FN_RE.match(line)
                 if f:
                     kv, oln = pending
-                    kv["harness"] = "::".join([module_path(rel)] + inline_mod + [f.group(1)])
+                    kv["harness"] = "::".join([module_path(rel)] + [n for n, _ in inline_mod] + [f.group(1)])
                     kv["file"] = rel
                     kv["line"] = oln
                     obs.append(normalise(kv))
